@@ -1321,7 +1321,7 @@ def check_C15(tier, seed):
                 res.violations.append((sig, {"property": "C15", "signature": sig, "scenario": s, "event": evid[m["id"]]}))
         log("C15 build %s: %d inputs, %d violations so far, %.0fs" % (san, len(scns), len(res.violations), time.time() - t0))
     return finish(res, tier, seed, "exploration", t0,
-                  "closed-form inputs of spec/MC_Deep.tla: nesting depth {1..6, 100, 1000, 10^4, 10^5} of SEQUENCE OF recursion (BER indefinite, OER, UPER, XER), SEQUENCE recursion (BER, OER) and nested constructed OCTET STRINGs, under the default and caller-supplied stack limits, on an 8 MiB stack; length prefixes of 2^31-1 / 2^30 / 64K fragments with nothing behind them; SEQUENCE OF NULL with maximal counts; the decoder must return (OK / FAIL / WMORE, no fatal signal, no timeout) and its peak heap must stay below 256 * n + 1 MiB for n input octets",
+                  "closed-form inputs of spec/MC_Deep.tla: nesting depth {1..6, 100, 1000, 10^4, 10^5} of SEQUENCE OF recursion (BER indefinite, OER, UPER, XER), SEQUENCE recursion (BER, OER) and nested constructed OCTET STRINGs, and of nested indefinite-length TLVs inside an unknown extension addition that is skipped (up to 10^6 levels, complete and cut off), under the default and caller-supplied stack limits, on an 8 MiB stack; length prefixes of 2^31-1 / 2^30 / 64K fragments with nothing behind them; SEQUENCE OF NULL with maximal counts; the decoder must return (OK / FAIL / WMORE, no fatal signal, no timeout) and its peak heap must stay below 256 * n + 1 MiB for n input octets",
                   ["MC_Deep.tla: closed forms equal the reference encodings for depth <= 6 (invariant DeepIsEncoding)", "the link-time wrapped allocator supplies the heap peak", "TLC, Json module, python glue"])
 
 
